@@ -16,8 +16,7 @@ def NoAlias (s : St) : Prop := ∀ t1 a1 t2 a2, (t1, a1) ∈ s.memo → (t2, a2)
 /-- shape of a node for which its rule necessarily makes a new object (`freshShape` only looks at the arity) -/
 def nodeShaped (t : Term) : Bool := freshShape t.op t.payload (t.args.map (fun _ => 0))
 
-/-- every node of `t`: quantifiers bind at least one variable, divisions do not have exactly one argument -- all
-    nodes that `FormulaManager` can build -/
+/-- every quantifier node of `t` binds at least one variable -- as all quantifiers that `FormulaManager` builds -/
 def Shaped (t : Term) : Prop := ∀ x ∈ t.subterms, nodeShaped x = true
 
 theorem freshShape_len (op : Op) (p : Payload) (as bs : List Nat) (h : as.length = bs.length) :
@@ -182,7 +181,7 @@ theorem theory_no_alias (hist : List Term) (hsh : ∀ t ∈ hist, Shaped t) : No
   (run_ok hist St.init memoOK_init).2.2 hsh noAlias_init
 
 /-- **theory_never_mutated**: an object stored in the memo is never written afterwards -- whatever is walked later,
-    shaped or not: the in-place assignments of `walk_function`, `walk_str_int`, `walk_bv_tonatural`,
+    shaped or not: the in-place assignments of `walk_function`, `walk_bv_tonatural`,
     `walk_array_value`, `walk_constant` hit objects allocated by the same rule invocation only. -/
 theorem theory_never_mutated (s : St) (hs : MemoOK s) (later : List Term) (t : Term) (a : Nat)
     (hm : (t, a) ∈ s.memo) : (run later s).heap.cells a = s.heap.cells a :=
